@@ -248,12 +248,24 @@ func (g *pg) shadowInitStmt(n int) string {
 	// listed findings: with registers a ":=" in the init clause of a for or if statement
 	// that shadows an enclosing variable writes the outer variable. Those exact shapes
 	// stay out of the random stream; their neighbours (block, switch) are generated.
-	if (shape == 0 || shape == 1) && g.avoidPrefix("shadow-init:for:") {
-		shape = 2
-	}
+	// While they are listed, the for-init / if-init shapes are written in a variant in
+	// which the known mode cannot occur: the shadowed variable is a fresh local of a
+	// bare block that nothing reads after the statement. The initializer still has to
+	// read the OUTER variable, so the iteration sequence / the branch taken is compared
+	// across configurations, and any difference is a new violation.
+	if ((shape == 0 || shape == 1) && g.avoidPrefix("shadow-init:for:")) || (shape == 3 && g.avoidPrefix("shadow-init:if-init")) {
+		g.nameN++
+		sv := fmt.Sprintf("sv%d", g.nameN)
+		g.feat("shadow-init:no-read-after")
 
-	if shape == 3 && g.avoidPrefix("shadow-init:if-init") {
-		shape = 4
+		switch shape {
+		case 0:
+			return fmt.Sprintf("%s{\n%s\t%s := %s%%4 + 2\n%s\tfor %s := %s + 1; %s > 0; %s-- {\n%s\t\tfmt.Println(%q, %s)\n%s\t}\n%s}\n", in, in, sv, v, in, sv, sv, sv, sv, in, l1, sv, in, in)
+		case 1:
+			return fmt.Sprintf("%s{\n%s\t%s := %s%%3 + 1\n%s\tfor %s := %s * 2; %s < 9; %s = %s + 2 {\n%s\t\tfmt.Println(%q, %s)\n%s\t}\n%s}\n", in, in, sv, v, in, sv, sv, sv, sv, sv, in, l1, sv, in, in)
+		default:
+			return fmt.Sprintf("%s{\n%s\t%s := %s%%5\n%s\tif %s := %s * 2; %s > 3 {\n%s\t\tfmt.Println(%q, %s)\n%s\t} else {\n%s\t\tfmt.Println(%q, %s)\n%s\t}\n%s}\n", in, in, sv, v, in, sv, sv, sv, in, l1, sv, in, in, l2, sv, in, in)
+		}
 	}
 
 	switch shape {
@@ -279,4 +291,61 @@ func (g *pg) shadowInitStmt(n int) string {
 
 		return fmt.Sprintf("%sswitch %s := %s + 1; {\ncase %s > 10:\n%s\tfmt.Println(%q, %s)\n%sdefault:\n%s\tfmt.Println(%q, %s)\n%s}\n%sfmt.Println(%q, %s)\n", in, v, v, v, in, l1, v, in, in, l1, v, in, in, l2, v)
 	}
+}
+
+// shadowModeKey makes the failure mode part of a shadow-init probe's key. The output
+// of these probes has two kinds of lines: (a) what the statement's own header and body
+// print (the iteration values, the branch taken) and (b) what is observed of the outer
+// variable AFTER the statement ("after", "end", "outer", "loop" and the final totals).
+// The first line that differs from the baseline decides:
+//
+//	outer-clobbered-after  everything the statement itself printed agrees; the outer
+//	                       variable read after it differs
+//	body-differs           the statement's own header/body output differs (e.g. the
+//	                       initializer read the wrong variable): the key then also
+//	                       carries the init form
+//	no-output / error:<e> / panic  the run ended differently
+func shadowModeKey(p progCase, base, got outcome) string {
+	form := ""
+
+	for _, f := range p.Features {
+		if strings.HasPrefix(f, "form:") {
+			form = ":" + strings.TrimPrefix(f, "form:")
+		}
+	}
+
+	switch {
+	case got.Panic != base.Panic:
+		return p.Key + form + ":panic"
+	case got.Err != base.Err:
+		e := got.Err
+		if e == "" {
+			e = "none"
+		}
+
+		return p.Key + form + ":error:" + slug(stripOperand(e))
+	case got.Out == "" && base.Out != "":
+		return p.Key + form + ":no-output"
+	}
+
+	_, want, have := firstDiffLine(base.Out, got.Out)
+
+	line := want
+	if line == "<end>" {
+		line = have
+	}
+
+	after := len(line) > 0 && line[0] >= '0' && line[0] <= '9'
+
+	for _, pre := range []string{"after", "end", "outer", "loop "} {
+		if strings.HasPrefix(line, pre) {
+			after = true
+		}
+	}
+
+	if after {
+		return p.Key + ":outer-clobbered-after"
+	}
+
+	return p.Key + form + ":body-differs"
 }
